@@ -155,6 +155,13 @@ func known() map[string]bool {
 	return m
 }
 
+// KnownOpen reports whether sig is listed as an open known finding for this run.
+// During regression / replay runs nothing is excluded, so that an open finding's
+// own case still reaches the defect.
+func KnownOpen(sig string) bool { return !inRegress && known()[sig] }
+
+var inRegress bool
+
 var curCase []byte
 var curProp, curCheck string
 
@@ -198,6 +205,7 @@ func Drive[C any](t *testing.T, r Runner[C]) {
 
 	// replay mode
 	if rp := os.Getenv("VERIF_REPLAY"); rp != "" {
+		inRegress = true
 		rf, c, err := loadReplay[C](rp)
 		if err != nil {
 			t.Fatalf("INFRA cannot load replay %s: %v", rp, err)
@@ -219,7 +227,7 @@ func Drive[C any](t *testing.T, r Runner[C]) {
 		}
 		fmt.Printf("REPLAY property=%s file=%s reproduced=%d/%d\n", r.Prop, rp, rep, n)
 		if last != nil {
-			fmt.Printf("REPLAY-VIOLATION sig=%s\n%s\ntrace: %s\n", last.Sig, last.Msg, strings.Join(lastV.Trace, " "))
+			fmt.Printf("REPLAY-VIOLATION sig=%s\n%s\ntrace: %s\n", last.Sig, last.Msg, shortTrace(lastV.Trace))
 			t.Fail()
 		}
 		return
@@ -227,6 +235,7 @@ func Drive[C any](t *testing.T, r Runner[C]) {
 
 	// regression cases
 	if dir := os.Getenv("VERIF_REGRESS"); dir != "" {
+		inRegress = true
 		files, _ := filepath.Glob(filepath.Join(dir, "*.json"))
 		sort.Strings(files)
 		for _, f := range files {
@@ -254,6 +263,7 @@ func Drive[C any](t *testing.T, r Runner[C]) {
 		}
 	}
 
+	inRegress = false
 	firstSig := ""
 	rapid.Check(t, func(rt *rapid.T) {
 		c := r.Gen(rt)
@@ -313,9 +323,16 @@ func Drive[C any](t *testing.T, r Runner[C]) {
 				return
 			}
 			p := saveFail("fail-last.json", cj, v, viol)
-			rt.Fatalf("VIOL property=%s sig=%s file=%s\n%s\ntrace: %s", r.Prop, viol.Sig, p, viol.Msg, strings.Join(v.Trace, " "))
+			rt.Fatalf("VIOL property=%s sig=%s file=%s\n%s\ntrace: %s", r.Prop, viol.Sig, p, viol.Msg, shortTrace(v.Trace))
 		}
 	})
+}
+
+func shortTrace(tr []string) string {
+	if len(tr) > 120 {
+		return strings.Join(tr[:90], " ") + fmt.Sprintf(" …(%d more)… ", len(tr)-110) + strings.Join(tr[len(tr)-20:], " ")
+	}
+	return strings.Join(tr, " ")
 }
 
 func loadReplay[C any](path string) (*ReplayFile, C, error) {
